@@ -2,6 +2,7 @@
 the vendored rayon 1.10.0 quicksort + separately checked cancellation delta)."""
 import hashlib
 import os
+import re
 
 import refdiff
 from cfg import Inconclusive, op_place, show, walk, strip_casts
@@ -51,10 +52,18 @@ def rule_refdiff(ctx):
     res = refdiff.compare(ours, REF_PATH)
     _state["refdiff"] = res
     ctx.floor("reference items compared", len(res["items"]), 14)
+    # A local deviation from the vetted text (a changed operator, constant, index, a dropped statement) is reported as
+    # a violation: that is how this check decides anything (the seeded sort defects differ in 1-2 places).  A function
+    # that has been REWRITTEN (it differs in more than REWRITE_REGIONS separate places; variable renumbering not counted)
+    # is outside what a textual comparison can judge: INCONCLUSIVE, never silently accepted.
+    REWRITE_REGIONS = 4
     for it in res["items"]:
         where = "src/par_sort.rs (%s)" % it["name"]
         if it["equal"] and it["delta_ok"]:
             ctx.ok(where, "%d tokens equal to the reference%s" % (it["tokens"], (" after removing the cancellation delta %s" % it["delta"]) if it["delta"] else ""))
+        elif not it["equal"] and it.get("changed_regions", 0) > REWRITE_REGIONS:
+            ctx.fail_closed("%s has been rewritten (it differs from the vetted reference in %d separate places, %d tokens): translation validation does not apply to it "
+                            "and its behaviour is not decided" % (it["name"], it.get("changed_regions", 0), it.get("changed_tokens", 0)))
         elif not it["equal"]:
             fd = it["first_difference"] or {}
             ctx.violation("par_sort|%s|deviates" % it["name"], where,
@@ -69,7 +78,16 @@ def rule_refdiff(ctx):
         if x.startswith("const ") or x.startswith("struct ") or x.startswith("impl "):
             ctx.fail_closed("item `%s` exists only in par_sort.rs: not covered by the translation validation" % x)
         else:
-            ctx.violation("par_sort|%s|extra" % x, "src/par_sort.rs", "function `%s` exists only in par_sort.rs (not part of the vetted reference)" % x)
+            nm_ = x[3:].split("#")[0].strip()
+            used_outside = False
+            for other in ("worker.rs", "lib.rs", "pattern.rs", "boxcar.rs"):
+                op_ = os.path.join(REPO, "src", other)
+                if os.path.exists(op_) and re.search(r"\b%s\b" % re.escape(nm_), open(op_, encoding="utf-8").read()):
+                    used_outside = True
+            if used_outside:
+                ctx.violation("par_sort|%s|extra" % x, "src/par_sort.rs", "function `%s` exists only in par_sort.rs (not part of the vetted reference) and is used by the rest of the crate: a sort entry point that was never validated" % x)
+            else:
+                ctx.fail_closed("private helper `%s` exists only in par_sort.rs (not part of the vetted reference): the functions that use it are not validated" % x)
 
 
 def ret_sources(fn):
